@@ -94,8 +94,12 @@ static std::vector<std::string> splitBar(const std::string& line) { std::vector<
     while (true) { size_t q = line.find(" | ", p); if (q == std::string::npos) { parts.push_back(line.substr(p)); break; } parts.push_back(line.substr(p, q - p)); p = q + 3; } return parts; }
 
 // run one operation; returns "<ok|ex> <R tokens> | valid=<0|1|->"
-static std::string runOp(GEOSContextHandle_t h, const std::string& op, int flags, double g, const GEOSGeometry* a, const GEOSGeometry* b) {
-    GEOSGeometry* r = nullptr;
+// pre > 0: the input first gets a precision model of grid size `pre` (pointwise; it already lies on that grid), as the result of an
+// earlier fixed-precision operation would: shortcuts keyed on the input's own precision model are then reachable
+static std::string runOp(GEOSContextHandle_t h, const std::string& op, int flags, double g, const GEOSGeometry* a, const GEOSGeometry* b, double pre = 0.0) {
+    GEOSGeometry* r = nullptr; GEOSGeometry* a1 = nullptr;
+    if (pre > 0) { a1 = GEOSGeom_setPrecision_r(h, a, pre, GEOS_PREC_NO_TOPO); if (!a1) return "ex - | valid=-"; a = a1; }
+    struct Guard { GEOSContextHandle_t h; GEOSGeometry*& p; ~Guard() { if (p) GEOSGeom_destroy_r(h, p); } } guard{h, a1};
     if (op == "I") r = GEOSIntersectionPrec_r(h, a, b, g);
     else if (op == "U") r = GEOSUnionPrec_r(h, a, b, g);
     else if (op == "D") r = GEOSDifferencePrec_r(h, a, b, g);
@@ -131,8 +135,8 @@ int main(int argc, char** argv) {
                 else std::cout << "invalid\n";
                 continue; }
             auto parts = splitBar(line); if (parts.size() < 3) { std::cout << "invalid\n"; continue; }
-            std::istringstream hs(parts[0]); std::string kind, op, gtok; int flags = 0; hs >> kind >> op >> flags >> gtok;
-            double g;
+            std::istringstream hs(parts[0]); std::string kind, op, gtok, pretok; int flags = 0; hs >> kind >> op >> flags >> gtok; hs >> pretok;
+            double g, pre = 0.0; if (pretok.compare(0, 4, "pre=") == 0) pre = frombits(std::stoull(pretok.substr(4), nullptr, 16));
             if (kind == "W") { g = std::stod(gtok);
                 GEOSGeometry* wa = GEOSGeomFromWKT_r(h, parts[1].c_str()); GEOSGeometry* wb = parts[2] == "-" ? nullptr : GEOSGeomFromWKT_r(h, parts[2].c_str());
                 if (!wa || (parts[2] != "-" && !wb)) { std::cout << "invalid\n"; continue; }
@@ -142,8 +146,8 @@ int main(int argc, char** argv) {
             std::unique_ptr<Geometry> a, b;
             try { a = buildGeom(parts[1], gf); if (parts[2] != "-") b = buildGeom(parts[2], gf); } catch (...) { std::cout << "invalid\n"; continue; }
             if (GEOSisValid_r(h, (GEOSGeometry*) a.get()) != 1 || (b && GEOSisValid_r(h, (GEOSGeometry*) b.get()) != 1)) { std::cout << "invalid\n"; continue; }
-            std::cout << "O " << op << " " << flags << " " << hex(g) << " | " << parts[1] << " | " << parts[2] << " | "
-                      << runOp(h, op, flags, g, (GEOSGeometry*) a.get(), (GEOSGeometry*) b.get()) << "\n"; }
+            std::cout << "O " << op << " " << flags << " " << hex(g) << (pre > 0 ? " pre=" + hex(pre) : std::string()) << " | " << parts[1] << " | " << parts[2] << " | "
+                      << runOp(h, op, flags, g, (GEOSGeometry*) a.get(), (GEOSGeometry*) b.get(), pre) << "\n"; }
         GEOS_finish_r(h); return 0; }
     if (argc < 5) return 2;
     uint64_t seed = std::stoull(argv[2]); long n = std::stol(argv[3]); Out out(argv[4]); Rng r(seed);
@@ -290,6 +294,22 @@ int main(int argc, char** argv) {
             if (res.compare(0, 4, "ok 0") == 0 && (res.find(" xy 0 ") != std::string::npos && res.find(" xy ", res.find(" xy 0 ") + 5) == std::string::npos)) out.count("result_empty");
             (void) aArea; (void) bArea;
             out.emit(hdr + " | " + res, "ok"); emitted++;
+        }
+        // two-step sequence: the input of setPrecision is itself the result of a fixed-precision operation on another grid
+        if (r.chance(35)) {
+            static const double FACT[] = {2.0, 2.5, 3.0, 10.0 / 3.0, 1.5, 0.5, 0.25, 7.0, 1.0};
+            double g0 = g * FACT[r.below(9)];
+            GEOSGeometry* a0 = (std::isfinite(g0) && g0 > 0 && maxAbs / g0 < 281474976710656.0) ? GEOSGeom_setPrecision_r(h, (GEOSGeometry*) ga.get(), g0, 0) : nullptr;
+            if (a0 && !GEOSisEmpty_r(h, a0) && GEOSisValid_r(h, a0) == 1) {
+                std::string ta0 = dumpGeom((const Geometry*) a0);
+                std::unique_ptr<Geometry> b0; try { b0 = buildGeom(ta0, gf); } catch (...) {}
+                if (b0) for (int f = 0; f < 4; f++) {
+                    std::string hdr = std::string("O SP ") + std::to_string(f) + " " + hex(g) + " pre=" + hex(g0) + " | " + ta0 + " | -";
+                    { FILE* cf = std::fopen((std::string(argv[4]) + ".current").c_str(), "w"); if (cf) { std::fprintf(cf, "%s\n", hdr.c_str()); std::fclose(cf); } }
+                    std::string res = runOp(h, "SP", f, g, (GEOSGeometry*) b0.get(), nullptr, g0);
+                    out.count("op_SP_after_other_grid"); if (res.compare(0, 2, "ex") == 0) out.count("EXCEPTION");
+                    out.emit(hdr + " | " + res, "ok"); emitted++; } }
+            if (a0) GEOSGeom_destroy_r(h, a0);
         }
     }
     GEOS_finish_r(h); return 0;
